@@ -288,7 +288,7 @@ func (p *Program) Render() string {
 // ---- static measures ----
 
 type measure struct {
-	Exprs, Lets, Transforms, Shadows, Calls int
+	Exprs, Lets, Transforms, Calls int
 }
 
 func (m *measure) expr(e Expr) {
